@@ -156,6 +156,16 @@ func (r *Run) Violation(sig string, detail interface{}) {
 	v.Count++
 }
 
+// jsonSafe returns v, or its %+v rendering when encoding/json cannot encode it
+// (non-finite floats, for instance), so that a replay or evidence file is
+// never left empty.
+func jsonSafe(v interface{}) interface{} {
+	if _, err := json.Marshal(v); err != nil {
+		return fmt.Sprintf("%+v", v)
+	}
+	return v
+}
+
 // NViolationSigs is the number of distinct signatures so far.
 func (r *Run) NViolationSigs() int {
 	r.mu.Lock()
@@ -215,7 +225,7 @@ func (r *Run) Finish() {
 		h := sha1.Sum([]byte(sig))
 		name := fmt.Sprintf("%s-%x.json", r.ID, h[:5])
 		path := filepath.Join(root, "replay", name)
-		b, _ := json.MarshalIndent(map[string]interface{}{"property": r.ID, "signature": sig, "count": v.Count, "case": v.Detail}, "", " ")
+		b, _ := json.MarshalIndent(map[string]interface{}{"property": r.ID, "signature": sig, "count": v.Count, "case": jsonSafe(v.Detail)}, "", " ")
 		os.WriteFile(path, b, 0o644)
 		v.Replay = path
 		if nviol <= 25 {
@@ -244,6 +254,9 @@ func (r *Run) Finish() {
 	cov["rule"] = r.Rule
 	if len(r.samples) == 0 {
 		r.samples = []interface{}{"(no case executed)"}
+	}
+	for i := range r.samples {
+		r.samples[i] = jsonSafe(r.samples[i])
 	}
 	cov["samples"] = r.samples
 	cov["exhaustive"] = r.Exhaustive && nviol == 0
